@@ -180,7 +180,22 @@ SameShape(a, b) ==
   /\ ShapeT(a.ty, b.ty)
   /\ LET m == Sub(a) \cup Sub(b) IN \A x \in m : \A y \in m : x.key = y.key => SameShape(x, y)
 
-ArgSet(args) == {<<args[i][1], args[i][2]>> : i \in DOMAIN args}
+\* canonical argument values: one record shape for both sides so that TLC can compare them
+CV(t, s, c, f) == [t |-> t, s |-> s, c |-> c, f |-> f]
+
+RECURSIVE OpVal(_)
+OpVal(v) ==
+  CASE v.t = "var"   -> CV("var", v.n, <<>>, <<>>)
+    [] v.t = "int"   -> CV("num", v.v, <<>>, <<>>)
+    [] v.t = "float" -> CV("num", v.v, <<>>, <<>>)
+    [] v.t = "str"   -> CV("str", "", v.cps, <<>>)
+    [] v.t = "bool"  -> CV("bool", IF v.v THEN "true" ELSE "false", <<>>, <<>>)
+    [] v.t = "null"  -> CV("null", "", <<>>, <<>>)
+    [] v.t = "enum"  -> CV("enum", v.v, <<>>, <<>>)
+    [] v.t = "list"  -> CV("list", "", <<>>, [i \in DOMAIN v.items |-> <<"", OpVal(v.items[i])>>])
+    [] v.t = "obj"   -> CV("obj", "", <<>>, [i \in DOMAIN v.fields |-> <<v.fields[i][1], OpVal(v.fields[i][2])>>])
+
+ArgSet(args) == {<<args[i][1], OpVal(args[i][2])>> : i \in DOMAIN args}
 
 RECURSIVE MergeErrs(_)
 MergeErrs(fs) ==
